@@ -76,11 +76,11 @@ def parse_printed(out):
     return vals
 
 
-def run_generator(workdir, consts, module='FM', invariants=(), emit=True, simulate=None,
+def run_generator(workdir, consts, module='FM', defaults=True, invariants=(), emit=True, simulate=None,
                   seed=0, extra_defs='', constraint=None, workers=1, heap='6g', timeout=3600):
     """Explore the builder state machine; -> (cases, stats dict)."""
     os.makedirs(workdir, exist_ok=True)
-    cs = dict(GEN_DEFAULTS)
+    cs = dict(GEN_DEFAULTS) if defaults else {}
     cs.update(consts)
     lines = ['---- MODULE MC ----', 'EXTENDS ' + module]
     for k, v in cs.items():
